@@ -288,6 +288,19 @@ POLYCYCLIC = ['C1CCC2CCCC2C1', 'C1CC2CCCC12', 'C1CC12CCC2', 'C1CC2CCC12', 'C1CCC
               'C1CC1C1CC1', 'C1CC1C1CCC1', 'c1ccccc1C1CC1', 'C1CC1C1CC1C1CC1']
 
 
+# molecules whose groups are remap KEYS of the shipped schemes (methyl on sp2/sp/aromatic/carbonyl carbon, on N and O, next to a
+# radical; hydroxyl on sp2/sp/aromatic carbon; formic/vinyl/enol fragments; acids on a surface; conjugated aldehydes): the
+# remap table is applied to whatever the centre assignment produced, in the order the atoms come
+REMAPPED = ['CC#C', 'CC#CC', 'CC=C', 'CC(C)=C', 'C/C=C/C', 'Cc1ccccc1', 'CC=O', 'CC(C)=O', 'CN', 'CNC', 'CO', 'COC', 'C[CH2]', 'C[CH]C', 'OC=C', 'Oc1ccccc1',
+            'OC#C', 'OC=O', 'CC(=O)C=C', 'CC(O)=C', 'C=C(O)C=C', 'OCC(C)=O', 'CC(=O)CO', '[H][H]', 'C', 'C=CC=O', 'CC=CC=O', 'OC(=O)C', 'CC(=O)O',
+            'CC#CC=C', 'CC(=O)C#C', 'COC=C', 'COc1ccccc1']
+REMAPPED_SURFACE = ['OC(=O)[{M}]', 'C(=O)([{M}])O', 'OC(=O)C[{M}]', 'C=CC(=O)[{M}]', '[{M}]C=CC=O', 'C~[{M}]', 'CC(=O)[{M}]', 'COC[{M}]', 'CC(O[{M}])=C']
+
+
+def remapped(metal=None):
+    return st.sampled_from(REMAPPED + ([x.replace('{M}', metal) for x in REMAPPED_SURFACE] if metal else []))
+
+
 def special():
     return st.sampled_from(SPECIAL)
 
@@ -350,6 +363,10 @@ def family(name, metal='Pt', max_heavy=12):
         return witness(metal)
     if name == 'witness-gas':
         return witness(None)
+    if name == 'remapped':
+        return remapped(metal)
+    if name == 'remapped-gas':
+        return remapped(None)
     if name == 'large':
         return large(metal)
     if name == 'large-gas':
